@@ -238,6 +238,12 @@ def h_incoming_encrypted(ctx, enctype, payload):
     return [(l, o) for l, o in obs if "delivered" in l]
 
 
+def h_outgoing_sync_reply(ctx, kind):
+    """request entities whose result the protocol layers turn into an entity: the answer may arrive while the request is still on its way down"""
+    from checks import c08
+    return c08.h_sync_reply(ctx, kind, "plain")
+
+
 def finding_key(case, label, values, where):
     if case.startswith("out[UnregisterIq,") and label.startswith("exactly-one-stanza (got 0)"):
         return "C06|outgoing UnregisterIqProtocolEntity is dropped by every layer"
@@ -259,6 +265,8 @@ def cases(tier):
             cs.append(dict(name="in-unknown[%s]" % tag, fn=h_incoming_unknown, args=(fl, enc), max_paths=4000))
             for n in outs:
                 cs.append(dict(name="out[%s,%s]" % (n.split(":")[-1], tag), fn=h_outgoing, args=(n, fl, enc), max_paths=2000))
+    for k in ("lastseen", "group-info", "picture-get", "media-upload", "groups-list"):
+        cs.append(dict(name="out-answered-during-send[%s]" % k, fn=h_outgoing_sync_reply, args=(k,), max_paths=2000))
     for enctype in ("pkmsg", "msg", "skmsg", "pkmsg+skmsg"):
         for payload in ("text", "extended-text"):
             cs.append(dict(name="in-encrypted[%s,%s]" % (enctype, payload), fn=h_incoming_encrypted, args=(enctype, payload), max_paths=2000))
